@@ -103,6 +103,9 @@ package db
 //@   ensures [C03,C05 open.decodes] err == nil ==> sync(ret)
 //@   ensures [C05 open.keys] err == nil ==> keys(ret)
 //@   ensures [C04 open.fail-no-kv] err != nil ==> ret == nil
+//@   ensures [C03,C04 open.fails-only-for-documented-reasons] (err != nil && old(diskHas(disk, path)) && call_ReadFile_1 == nil) ==>
+//@        ((defined(first_Unmarshal) && first_Unmarshal != nil) || (defined(wrapped) && wrapped.Version != 1) || (defined(call_ReadWithAssociatedData_1) && call_ReadWithAssociatedData_1 != nil) ||
+//@         (defined(call_New_1) && call_New_1 != nil) || (defined(call_Decrypt_1) && call_Decrypt_1 != nil) || (defined(call_Decrypt_1) && call_Unmarshal != nil))
 //@   ensures [C04,C05 open.only-own-file] diskSameElsewhere(path)
 
 //@ func (*kv).filePath(kv) (r)
@@ -412,6 +415,9 @@ package db
 //@ pin [C03,C18 byteString-marshal] method byteString.MarshalText exists
 //@ pin [C03,C18 byteString-unmarshal] method byteString.UnmarshalText exists
 // The live file is never written in place: package db reaches the file system for writing only through atomicfile.WriteFile, only in save.
+// Lock-set discipline: the secret table and the write generation are touched by DB methods only under db.mu
+// (the kv methods themselves have no DB in scope: they are reached through the call-site assertions above).
+//@ guarded [C14 kv-state-accessed-under-the-db-lock] kv: secrets, gen by mu of DB
 //@ nocall [C04,C05 no-inplace-write] in db: os.WriteFile, os.Create, os.OpenFile, os.Rename, os.Truncate, os.Remove, (*os.File).Write, (*os.File).WriteString
 //@ callers [C04,C05 atomic-writer] tailscale.com/atomicfile.WriteFile only-from (*db.kv).save, (client/setec.FileCache).Write
 //@ callers [C03,C04 save-callers] (*db.kv).save only-from db.newKV, (*db.kv).put, (*db.kv).setActive, (*db.kv).deleteVersion, (*db.kv).deleteSecret
